@@ -426,17 +426,36 @@ FORWARD_ITER = ('core::slice::iter', '<core::slice::iter::Iter as core::iter::tr
 
 
 def iter_source(t):
+    return iter_source_ex(t)[:2]
+
+
+def iter_source_ex(t):
     """next(&mut it) receiver -> (source collection term, enumerated?) if built from whitelisted forward adapters."""
     x = strip_mut(t)
     enum = False
+    tail = False
     while True:
         x = strip_mut(x)
-        if x[0] == 'call' and isinstance(x[1], str) and x[1] in FORWARD_ITER and len(x[2]) == 1:
+        if x[0] == 'call' and isinstance(x[1], str) and len(x[2]) == 1 and \
+                (x[1] in FORWARD_ITER or (x[1].startswith('<&[') and x[1].endswith('] as core::iter::traits::collect::IntoIterator>::into_iter'))):
             if 'enumerate' in x[1]:
                 enum = True
             x = x[2][0]
             continue
-        return x, enum
+        # `rest` of `if let Some((first, rest)) = xs.split_first()`: the tail of xs, still in order
+        y = x
+        pth = []
+        while y[0] in ('field', 'payload', 'deref', 'ref', 'load', 'autoderef'):
+            if y[0] == 'field':
+                pth.append(('f', str(y[2])))
+            elif y[0] == 'payload':
+                pth.append(('v', y[2]))
+            y = y[1]
+        if y[0] == 'call' and y[1] == 'core::slice::split_first' and len(y[2]) == 1 and list(reversed(pth)) == [('v', 'Some'), ('f', '0'), ('f', '1')]:
+            x = y[2][0]
+            tail = True
+            continue
+        return x, enum, tail
 
 
 def proj_path(t, root):
@@ -492,6 +511,8 @@ def rule_format(fm, rep, rid='R1', scope='all'):
     rep.floor(rid, 'output sites in the formatter', len(ev.events), 6)
     selfp = ('param', 1)
     nexts = {}
+    firsts = set()
+    tails = {}
 
     def role_of_term(x):
         """which formatter role does value term x denote? returns (role, extra)"""
@@ -516,11 +537,26 @@ def rule_format(fm, rep, rid='R1', scope='all'):
             return None, 'reads self.%s through %s' % (n, path)
         # tag item
         for y in walk(x):
+            if y[0] == 'call' and y[1] == 'core::slice::split_first' and len(y[2]) == 1:
+                # `first` of `if let Some((first, rest)) = self.tags.split_first()`
+                if self_field_name(y[2][0]) != fm.roles['tags']:
+                    return None, 'splits %s, not self.%s' % (fmt(y[2][0])[:60], fm.roles['tags'])
+                path = proj_path(strip_mut(x), y)
+                if path is not None:
+                    path = [(k_, str(v_) if k_ == 'f' else v_) for k_, v_ in path]
+                    item = [('v', 'Some'), ('f', '0'), ('f', '0')]
+                    if path == item + [('f', '0'), ('v', 'Some'), ('f', '0')]:
+                        firsts.add(y)
+                        return 'tagkey', y
+                    if path == item + [('f', '1')]:
+                        firsts.add(y)
+                        return 'tagval', y
             if y[0] == 'call' and isinstance(y[1], str) and y[1].endswith('Iterator>::next'):
-                src, enum = iter_source(y[2][0])
+                src, enum, is_tail = iter_source_ex(y[2][0])
                 if self_field_name(src) != fm.roles['tags']:
                     return None, 'iterates %s, not self.%s' % (fmt(src)[:60], fm.roles['tags'])
                 nexts[y] = enum
+                tails[y] = is_tail
                 path = proj_path(strip_mut(x), y)
                 if path is None:
                     return None, 'tag text is computed (%s)' % fmt(x)[:80]
@@ -608,6 +644,9 @@ def rule_format(fm, rep, rid='R1', scope='all'):
             d = norm(dt)
             if term_callee_is(d, 'alloc::vec::Vec::is_empty') and self_field_name(d[2][0]) == fm.roles['tags'] and ('bool', False) in labels:
                 okg = True
+            elif d[0] == 'discr' and term_callee_is(d[1], 'core::slice::split_first') and self_field_name(d[1][2][0]) == fm.roles['tags'] and \
+                    ('variant', 'Some') in labels:
+                okg = True          # split_first() is Some exactly when the list is non-empty
             else:
                 def atom(t):
                     t = norm(t)
@@ -639,6 +678,13 @@ def rule_format(fm, rep, rid='R1', scope='all'):
                 for lab in labels:
                     if lab[0] == 'bool' and _idx_gt0(dt, lab[1], idx):
                         okg = True
+        if not okg and firsts:
+            # first/rest form: the first tag is written on its own, the separator inside the loop over the rest, i.e. only when
+            # another element was just taken from the tail
+            for dt, labels, sbi in gs:
+                d = norm(dt)
+                if d[0] == 'discr' and d[1] in nexts and not nexts[d[1]] and ('variant', 'Some') in labels:
+                    okg = True
         if not okg:
             for nx in nexts:
                 nb_ = [bi for bi, t_ in body.calls() if not body.blocks[bi]['cleanup'] and norm(T.call_term(bi)) == nx]
@@ -649,6 +695,11 @@ def rule_format(fm, rep, rid='R1', scope='all'):
         rep.bad('R2', 'tags/separator', fm.format.where(), 'no "," separator site found')
     for nx, enum in nexts.items():
         pass
+    # a tag written on its own before the loop (split_first) goes with a loop over the *rest*; a loop over the whole list
+    # goes with no such first tag - otherwise the first tag is written twice or never
+    once = all(tails.get(nx, False) for nx in nexts) if firsts else not any(tails.values())
+    rep.ob('R2', 'tags/each-tag-once', once, fm.format.where(), 'first/rest and whole-list iteration are not mixed' if once else
+           'the first tag is taken out with split_first() but the loop does not iterate the rest (or the other way round): a tag is written twice or skipped')
     rep.ob('R2', 'tags/forward-iteration', bool(nexts), fm.format.where(), 'tags are visited by forward iteration over self.%s (%d loop)' % (fm.roles['tags'], len(nexts)))
     # key colon guarded by key Some is implied by the grammar + role extraction (tagkey reads payload Some)
     return ok
